@@ -385,8 +385,21 @@ func genC06(o *out, r *Rng) {
 		"movement A_Movement_0 { walk_down }\nscript A { foo(moves(walk_up)) }",
 		"script A { msgbox(\"x\") }\nscript B { msgbox(\"z\") }\ntext B_Text_0 { \"y\" }",
 		"mapscripts M { MAP_SCRIPT_ON_LOAD { msgbox(\"x\") } }\ntext M_MAP_SCRIPT_ON_LOAD_Text_0 { \"y\" }",
+		// the user's statement has exactly the content of the generated one: still a clash (the label would be defined once, but
+		// with the wrong scope, or the user's statement would be dropped)
+		"script A { msgbox(\"x\") }\ntext A_Text_0 { \"x\" }", "text(global) A_Text_0 { \"x\" }\nscript A { msgbox(\"x\") }", "script A { msgbox(ascii\"x\") }\ntext(local) A_Text_0 { ascii\"x\" }",
+		"script A { foo(moves(walk_up)) }\nmovement A_Movement_0 { walk_up }", "movement(global) A_Movement_0 { walk_up }\nscript A { foo(moves(walk_up)) }",
+		"mapscripts M { MAP_SCRIPT_ON_LOAD { msgbox(\"x\") } }\ntext M_MAP_SCRIPT_ON_LOAD_Text_0 { \"x\" }",
 	} {
 		o.e2eBoth(s, Opts{Sw: defSw, Expect: "reject"})
+	}
+	// sharing is by (content, type): a typed string and a plain string whose content spells type + content (or any other
+	// concatenation of the two) are different texts with their own labels
+	for _, ty := range []string{"ascii", "braille", "custom"} {
+		for _, other := range []string{ty + "Hi", "Hi" + ty, ty + ":Hi", ty + " Hi", ty + "\\\"Hi", "Hi"} {
+			o.e2eBoth("script S { msgbox("+ty+"\"Hi\") msgbox(\""+other+"\") a("+ty+"\"Hi\", \""+other+"\") }", Opts{Sw: defSw})
+			o.e2eBoth("script S { msgbox(\""+other+"\") msgbox("+ty+"\"Hi\") }\nscript T { msgbox("+ty+"\"Hi\") }", Opts{Sw: defSw})
+		}
 	}
 }
 
@@ -689,6 +702,26 @@ func genC10(o *out, r *Rng) {
 			o.add(E2E(src.Layout(r, false), Opts{Opt: r.P(50), Sw: defSw}))
 		} else {
 			o.add(E2E(src.Canon(), Opts{Opt: r.P(50), Sw: defSw}))
+		}
+		if r.P(25) { // the whole stretch on ONE source line, line markers on: every command is still there, in order
+			o.dir("EXPECTLINES", Hex(strings.Join(want, "\n")))
+			o.add(E2E(src.Canon(), Opts{Opt: r.P(50), Sw: defSw, LmPath: "src/one line.pory"}))
+		}
+	}
+	// an inline string argument is replaced by the label of ITS text: typed and plain strings whose type + content coincide as strings
+	for _, ty := range []string{"ascii", "braille"} {
+		for _, other := range []string{ty + "Hi", "Hi" + ty, ty + ":Hi", "Hi"} {
+			typed, plain := "."+ty+" \"Hi$\"", ".string \""+other+"$\""
+			if ty == "ascii" {
+				typed = ".ascii \"Hi\\0\""
+			}
+			for _, s := range [][2]string{{"script S { msgbox(" + ty + "\"Hi\") msgbox(\"" + other + "\", 2) a(" + ty + "\"Hi\", \"" + other + "\") }", "msgbox S_Text_0\nmsgbox S_Text_1, 2\na S_Text_0, S_Text_1\nreturn\n" + typed + "\n" + plain},
+				{"script S { a(\"" + other + "\") b(" + ty + "\"Hi\") }", "a S_Text_0\nb S_Text_1\nreturn\n" + plain + "\n" + typed}} {
+				for _, op := range []Opts{{Sw: defSw}, {Opt: true, Sw: defSw}, {Opt: true, Sw: defSw, LmPath: "m.pory"}} {
+					o.dir("EXPECTLINES", Hex(s[1]))
+					o.add(E2E(s[0], op))
+				}
+			}
 		}
 	}
 	// single keyword arguments, end/return in the middle, poryswitch fallback with inline text
@@ -1056,6 +1089,12 @@ func genC15(o *out, r *Rng) {
 			"script S { x(moves(walk_up)) }\nmovement" + sc + " S_Movement_0 { walk_down }", "script S { poryswitch(V) { A: a _: msgbox(\"t\") } }\ntext" + sc + " S_Text_0 { \"user\" }"} {
 			o.add(E2E(s, Opts{Opt: true, Lint: true}))
 			o.add(E2E(s, Opts{Opt: false, Lint: true, Sw: defSw}))
+		}
+		// the user's statement has exactly the content of the hoisted one: it is not dropped in favour of the generated (local) label
+		for _, s := range []string{"script S { msgbox(\"t\") }\ntext" + sc + " S_Text_0 { \"t\" }", "text" + sc + " S_Text_0 { \"t\" }\nscript S { msgbox(\"t\") msgbox(\"u\") }",
+			"script S { x(moves(walk_up)) }\nmovement" + sc + " S_Movement_0 { walk_up }", "script S { msgbox(braille\"t\") }\ntext" + sc + " S_Text_0 { braille\"t\" }"} {
+			o.e2eBoth(s, Opts{Sw: defSw, Expect: "reject"}) // one name cannot carry the written scope and the generated local one
+			o.add(E2E(s, Opts{Opt: true, Lint: true}))
 		}
 	}
 }
